@@ -3,7 +3,6 @@
 // Kernel: AspaDefinitions::process_updates (+ add_or_replace, get, has, remove).
 use super::*;
 use rpki::repository::resources::{AsBlock, AsBlocks, Asn, Ipv4Blocks, Ipv6Blocks};
-use crate::config::verif_kani::{const_finish, fixed_random_state, noop_write};
 
 fn asn(v: u32) -> Asn { Asn::from_u32(v) }
 
@@ -23,13 +22,10 @@ fn ca() -> CaHandle { CaHandle::new("ca".into()) }
 /// one; when accepted the new configuration holds exactly the new definition
 /// for that customer (and still the other existing one), and one event is
 /// emitted; the original configuration is never touched.
-// vk: timeout=900; unwindset=_RINvNvNtCs8xvirJzNMvV_4core3ptr25swap_nonoverlapping_bytes26swap_nonoverlapping_chunksKj8_ECscrgiVT8UQOZ_6object.0:8; bound=0 or 1 existing definition (1 provider), 1 add-or-replace entry with exactly 2 providers, all AS numbers 32-bit symbolic, held = one arbitrary AS range; constant-hash stub
+// vk: timeout=900; bound=0 or 1 existing definition (1 provider), 1 add-or-replace entry with exactly 2 providers, all AS numbers 32-bit symbolic, held = one arbitrary AS range; model map (harness/kani_map.rs)
 #[kani::proof]
 #[kani::unwind(5)]
-#[kani::stub(std::hash::RandomState::new, fixed_random_state)]
-#[kani::stub(<std::hash::DefaultHasher as std::hash::Hasher>::finish, const_finish)]
-#[kani::stub(<std::hash::DefaultHasher as std::hash::Hasher>::write, noop_write)]
-fn x05e_aspa_update_refused_iff_invalid() {
+fn c05e_aspa_update_refused_iff_invalid() {
     let (lo, hi): (u32, u32) = (kani::any(), kani::any());
     kani::assume(lo <= hi);
     let resources = held(lo, hi);
@@ -72,13 +68,10 @@ fn x05e_aspa_update_refused_iff_invalid() {
 /// An entry with an empty provider list and the removal of an unknown
 /// customer are refused; the removal of a known one is accepted and removes
 /// exactly it.
-// vk: timeout=900; unwindset=_RINvNvNtCs8xvirJzNMvV_4core3ptr25swap_nonoverlapping_bytes26swap_nonoverlapping_chunksKj8_ECscrgiVT8UQOZ_6object.0:8; bound=1 existing definition, either 1 removal or 1 entry with no providers; constant-hash stub
+// vk: timeout=900; bound=1 existing definition, either 1 removal or 1 entry with no providers; model map (harness/kani_map.rs)
 #[kani::proof]
 #[kani::unwind(5)]
-#[kani::stub(std::hash::RandomState::new, fixed_random_state)]
-#[kani::stub(<std::hash::DefaultHasher as std::hash::Hasher>::finish, const_finish)]
-#[kani::stub(<std::hash::DefaultHasher as std::hash::Hasher>::write, noop_write)]
-fn x05e_aspa_remove_and_empty() {
+fn c05e_aspa_remove_and_empty() {
     let resources = held(0, u32::MAX);
     let (c0, q0, r): (u32, u32, u32) = (kani::any(), kani::any(), kani::any());
     let mut defs = AspaDefinitions::default();
@@ -109,12 +102,10 @@ fn x05e_aspa_remove_and_empty() {
 }
 
 /// Reduced probe: empty configuration, one entry.
+// vk: timeout=900
 #[kani::proof]
 #[kani::unwind(5)]
-#[kani::stub(std::hash::RandomState::new, fixed_random_state)]
-#[kani::stub(<std::hash::DefaultHasher as std::hash::Hasher>::finish, const_finish)]
-#[kani::stub(<std::hash::DefaultHasher as std::hash::Hasher>::write, noop_write)]
-fn x05e_probe_empty_config() {
+fn c05e_probe_empty_config() {
     let (lo, hi): (u32, u32) = (kani::any(), kani::any());
     kani::assume(lo <= hi);
     let resources = held(lo, hi);
@@ -131,6 +122,7 @@ fn x05e_probe_empty_config() {
     kani::cover!(res.is_err());
     std::mem::forget((res, defs, resources));
 }
+
 
 #[cfg(test)]
 #[path = "/verif/.cache/playback/server_ca_aspa.rs"]
